@@ -785,6 +785,21 @@ def _attempts_carried(ctx):
             ("same-class", z3.BoolVal(I.class_of(res).name == "RunTask"))]
 
 
+def _delivered_same(ctx):
+    """C19: what the transactional push stores is delivered with the same type and field values (metadata aside)."""
+    I = ctx.I
+    if ctx.exc is not None:
+        return [("no-exception", z3.BoolVal("IntegrityError" in I.exc_class_names(ctx.exc)))]
+    res, msg = ctx.result, ctx.args["message"]
+    if not isinstance(res, SObj):
+        return [("delivered", I.ops.is_none(res))]
+    goals = [("same-class", z3.BoolVal(I.class_of(res).name == "RunTask"))]
+    for f in I.index.all_fields(I.index.find_class("RunTask")):
+        if f not in METADATA:
+            goals.append((f"field.{f}", I.ops.eq(I.getattr(res, f), I.getattr(msg, f))))
+    return goals
+
+
 def _push_poll_run(ctx):
     """transactional push of a RunTask, commit, then poll_one on a queue that holds nothing else deliverable."""
     I = ctx.I
@@ -817,7 +832,7 @@ def roundtrip_units():
     out.append(Unit(prop="*", name="L1/push_message+poll_one", func=Q + "queue:SqliteQueue.poll_one", params=[], names=STATUS_NAMES,
                     registry=reg, replayable=False, run=_push_poll_run,
                     obligations=[Obl("C14/attempts-carried", _attempts_carried, when="any", scenario="d1_transient_retry_unbounded.py"),
-                                 Obl("C19/queue/txn-push-then-poll", _attempts_carried, when="any")]))
+                                 Obl("C19/queue/txn-push-then-poll", _delivered_same, when="any")]))
     return out
 
 
